@@ -672,9 +672,6 @@ def r11_round_numbers(ctx):
         rn = elect.state_kwargs(prog, sc).get("round_number")
         n += 1
         ctx.check(rn is None or astx.is_const(rn, 0), f, sc, "the initial state is round 0", astx.u(rn) if rn is not None else "default", "the initial state is not numbered 0")
-    apps = [x for x in astx.walk_own(f.node) if elect.is_states_append(x)]
-    ctx.check(bool(apps) and bool(elect.state_ctor_calls(prog, f)), f, apps[0] if apps else f.node, "the initial state is recorded before the first step", "",
-              "Election._run_election does not record the round-0 state: every round number is off by one and get_profile(0) has nothing to return")
     if n < 8:
         ctx.vanished(f"recorded states with an explicit round number: only {n}")
 
